@@ -96,7 +96,7 @@ Open Scope Q_scope.
 Inductive dcase :=
 | DPrec (o : string) (imp : bool) (out : option Z)
 | DMedia (ql : list string) (dev : string) (out : bool)
-| DLen (e : env) (fs : option Q) (v : lval) (out : option Q)       (* None = value returned unchanged *)
+| DLen (e : env) (for_fs : bool) (fs : option Q) (v : lval) (out : option Q)   (* None = returned unchanged *)
 | DFs (e : env) (parent : option Q) (v : fsval) (out : option Q)
 | DFw (parent : option Z) (v : fwval) (out : option Z)              (* None = KeyError *)
 | DLh (e : env) (v : lhval) (out : lhres).
@@ -121,7 +121,8 @@ Definition spec_prec (o : string) (imp : bool) : option Z :=
   if String.eqb o "user agent" then Some 1%Z
   else if String.eqb o "user" then Some (if imp then 5 else 2)%Z
   else if String.eqb o "author" then Some (if imp then 4 else 3)%Z else None.
-Definition spec_length (e : env) (fs : option Q) (v : lval) : option Q :=
+(* root_of_doc: the computed font size of the document's root element (= own_fs e on the root element) *)
+Definition spec_length (e : env) (root_of_doc : Q) (fs : option Q) (v : lval) : option Q :=
   match v with
   | LKeyword => None
   | LDim x u =>
@@ -131,7 +132,7 @@ Definition spec_length (e : env) (fs : option Q) (v : lval) : option Q :=
       | Px => Some x | In_ => Some (x * 96) | Pt => Some (x * 96 / 72) | Pc => Some (x * 96 / 6)
       | Cm => Some (x * 96 / (254 # 100)) | Mm => Some (x * 96 / (254 # 10)) | Qu => Some (x * 96 / (1016 # 10))
       | Em => Some (x * f) | Ex => Some (x * f * ex_ratio e) | Ch => Some (x * f * ch_ratio e)
-      | Rem => Some (x * root_fs e)
+      | Rem => Some (x * root_of_doc)
       end
   end.
 Definition spec_fs_ok (e : env) (parent : option Q) (v : fsval) (out : option Q) : bool :=
@@ -141,7 +142,7 @@ Definition spec_fs_ok (e : env) (parent : option Q) (v : fsval) (out : option Q)
   | FLarger, Some q => Qle_bool p 0 || Qltb p q
   | FSmaller, Some q => Qle_bool p 0 || (Qltb q p && Qltb 0 q)
   | FDim x Pct, Some q => close (x * p / 100) q
-  | FDim x u, o => oclose (spec_length e (Some p) (LDim x u)) o
+  | FDim x u, o => oclose (spec_length e (if is_root e then 16 else root_fs e) (Some p) (LDim x u)) o
   | _, None => false
   end.
 Definition spec_fw (parent : option Z) (v : fwval) : option Z :=
@@ -159,9 +160,10 @@ Definition judge_direct (c : dcase) : nat :=
   | DMedia ql dev out =>
       ((if Bool.eqb (evaluate_media_query ql dev) out then 0 else 1) +
        (if Bool.eqb (existsb (fun m => String.eqb m "all" || String.eqb m dev) ql) out then 0 else 2))%nat
-  | DLen e fs v out =>
-      ((if oclose (lres_opt (length e fs v)) out then 0 else 1) +
-       (if oclose (spec_length e fs v) out then 0 else 2))%nat
+  | DLen e for_fs fs v out =>
+      ((if oclose (lres_opt (length e for_fs fs v)) out then 0 else 1) +
+       (if oclose (spec_length e (if is_root e then (if for_fs then 16 else own_fs e) else root_fs e) fs v) out
+        then 0 else 2))%nat
   | DFs e parent v out =>
       ((if oclose (font_size e parent v) out then 0 else 1) + (if spec_fs_ok e parent v out then 0 else 2))%nat
   | DFw parent v out =>
@@ -176,7 +178,8 @@ Definition judge_direct (c : dcase) : nat :=
         | HPct x, RPixels q => if close (x / 100 * own_fs e) q then 0 else 2
         | HNumber x, RNumber q => if close x q then 0 else 2
         | HNormal, RNormal => 0
-        | HLen x u, RPixels q => if oclose (spec_length e None (LDim x u)) (Some q) then 0 else 2
+        | HLen x u, RPixels q =>
+            if oclose (spec_length e (if is_root e then own_fs e else root_fs e) None (LDim x u)) (Some q) then 0 else 2
         | _, _ => 2
         end))%nat
   end.
